@@ -475,4 +475,41 @@ theorem correctTtestWith_eq_canonical {o : List Nat} {p : List Rat} (h : IsArgso
     (h0 : ∀ x ∈ p, 0 ≤ x) (pad : Nat) : correctTtestWith o p pad = correctTtest p pad :=
   correctTtestWith_perm p pad o (argsort p) h (argsort_isArgsort p) h0
 
+/-- Holm-corrected p-values lie between the raw p-value and 1 -/
+theorem holm_bounds {o : List Nat} {p : List Rat} (h : IsArgsort o p) (h0 : ∀ x ∈ p, 0 ≤ x)
+    (h1 : ∀ x ∈ p, x ≤ 1) (i : Nat) (hi : i < p.length) :
+    ∃ y, (correctTtestWith o p 0)[i]? = some y ∧ p.getD i 0 ≤ y ∧ y ≤ 1 := by
+  obtain ⟨_, y, hy, hge⟩ := approx_slot_ge (o' := []) (th := p.getD i 0) h h0 h1 i hi (lt_irrefl _)
+  refine ⟨y, hy, hge, ?_⟩
+  have him := mem_of_argsort h hi
+  have hk := gather_getElem?_idxOf o p i him
+  rw [correctTtestWith_slot h h0 0 i hi _ hk] at hy
+  cases hy
+  unfold cap1
+  split
+  · rename_i hlt; exact le_of_lt hlt
+  · exact le_refl _
+
+/-- pointwise form of `approx_mask_eq` -/
+theorem approx_iff_pointwise {o o' : List Nat} {p : List Rat} {th : Rat} (h : IsArgsort o p)
+    (h' : IsArgsort o' (gather (interestingIdx p th) p)) (h0 : ∀ x ∈ p, 0 ≤ x) (h1 : ∀ x ∈ p, x ≤ 1)
+    (i : Nat) (hi : i < p.length) :
+    ∃ a b, (approxCorrectTtestWith o' p th)[i]? = some a ∧ (correctTtestWith o p 0)[i]? = some b ∧
+      (a < th ↔ b < th) := by
+  have ha : i < (approxCorrectTtestWith o' p th).length := by simpa using hi
+  have hb : i < (correctTtestWith o p 0).length := by simpa using hi
+  refine ⟨_, _, List.getElem?_eq_getElem ha, List.getElem?_eq_getElem hb, ?_⟩
+  have := congrArg (fun l => l[i]?) (approx_mask_eq h h' h0 h1)
+  simp only [List.getElem?_map, List.getElem?_eq_getElem ha, List.getElem?_eq_getElem hb,
+    Option.map_some, Option.some.injEq] at this
+  constructor
+  · intro hlt
+    have e : decide ((approxCorrectTtestWith o' p th)[i] < th) = true := decide_eq_true hlt
+    rw [this] at e
+    exact of_decide_eq_true e
+  · intro hlt
+    have e : decide ((correctTtestWith o p 0)[i] < th) = true := decide_eq_true hlt
+    rw [← this] at e
+    exact of_decide_eq_true e
+
 end CTM.Holm
